@@ -47,6 +47,11 @@ CLAIMED = {
          "For every generated message program the check enumerates EVERY byte offset at which the destination can start failing (complete for that program) and injects producer failures; the programs themselves are sampled by rapid, so the guarantee is exhaustive per shape and statistical across shapes.",
          "Sinks obey the io.Writer contract and keep failing once they failed; shapes limited to 0..3 parts, 0..2 embeds, 0..2 attachments with contents <= 90 bytes.",
          "DESIGN.md section 3, C12"),
+ "C17": ("fault_enumeration",
+         "stall-point fault injection: the reference server goes silent at every enumerated step of the dial and send dialogues (incl. TLS handshake, AUTH challenges, inside DATA content with a bounded buffer) x TLS policy x auth class x call {DialWithContext, DialAndSend, Send, Reset} x timeout; oracle: the call returns a non-nil error within max(20 x timeout, 15 s), misses must repeat twice",
+         "Complete for the enumerated stall points (one per command position per TLS mode and auth mechanism class); boundedness is observed with real clocks, not proved.",
+         "Wall-clock oracle with a bound >= 20x the configured timeout and >= 15 s (crypto/tls may spend 5 s on close_notify when the peer stopped reading); in-memory transport with deadline support implemented by the harness.",
+         "DESIGN.md section 3, C17"),
  "C18": ("exploration",
          "rapid-generated long/multi-word header values, address lists, file names, bodies around the 57/76 wrapping points and adversarial producer chunkings; oracle: raw-line lint (CRLF, no bare CR/LF, <= 76 encoded body lines, <= 78 header lines unless unfoldable), unfold/decode == value set, metamorphic equality across chunkings",
          "Generated-input search with a line-discipline lint, a round trip on folded values and a metamorphic relation over producer chunkings; all sampled.",
